@@ -256,7 +256,7 @@ def run(chk):
 
 def _stream(jobs, seeds, extra=None):
     """thorough tier: execute and hand over the observations in chunks of configurations (bounded memory)"""
-    step = 160
+    step = 40
     for k in range(0, len(jobs), step):
         obs = []
         for part in core.parallel_map(_exec_small, jobs[k:k + step], chunksize=2):
